@@ -128,7 +128,16 @@ func Mutate(r *rng.R, w0 *World, c Cfg) (*World, string) {
 			}
 		case 6:
 			ns := rng.Pick(r, w.Namespaces).Name
-			w.NetPols = append(w.NetPols, GenNetPol(r, w, c, ns, fmt.Sprintf("npm%d", len(w.NetPols))))
+			name := fmt.Sprintf("npm%d", len(w.NetPols))
+			for taken := true; taken; { // after a drop the count may name a policy that is still there
+				taken = false
+				for i := range w.NetPols {
+					if w.NetPols[i].Ns == ns && w.NetPols[i].Name == name {
+						taken, name = true, name+"x"
+					}
+				}
+			}
+			w.NetPols = append(w.NetPols, GenNetPol(r, w, c, ns, name))
 			return w, "addPolicy"
 		case 7:
 			if len(w.NetPols) > 0 {
@@ -138,7 +147,16 @@ func Mutate(r *rng.R, w0 *World, c Cfg) (*World, string) {
 			}
 		case 8:
 			ns := rng.Pick(r, w.Namespaces).Name
-			w.Workloads = append(w.Workloads, Workload{Ns: ns, Name: fmt.Sprintf("wn%d", len(w.Workloads)), Kind: rng.Pick(r, c.Kinds),
+			name := fmt.Sprintf("wn%d", len(w.Workloads))
+			for taken := true; taken; {
+				taken = false
+				for i := range w.Workloads {
+					if w.Workloads[i].Ns == ns && w.Workloads[i].Name == name {
+						taken, name = true, name+"x"
+					}
+				}
+			}
+			w.Workloads = append(w.Workloads, Workload{Ns: ns, Name: name, Kind: rng.Pick(r, c.Kinds),
 				Labels: randLabels(r, 0.55), Ports: GenCPorts(r, c)})
 			return w, "addWorkload"
 		case 9:
